@@ -18,7 +18,7 @@
 From Avfs Require Import Base PathModel PathSpec PathProofs PathCleanProofs PathIterProofs.
 From Coq Require Import Permutation.
 From Avfs Require Import MemFS MemFile World Posix Inv WalkBridge WalkSym WalkBudget WalkReadlink WalkRel StepEq WalkInv StepInv
-  HeapEq HeapEqSnap StepRename StepRenameDir StepHist StepCwd StepMkdirAll StepHistM StepRemoveAll StepRemoveAllEx.
+  HeapEq HeapEqSnap StepRename StepRenameDir StepHist StepCwd StepMkdirAll StepHistM StepRemoveAll StepRemoveAllEx StepOpen StepHistO StepNamePath StepCwdCreate StepRemoveAllExact.
 
 Theorem C01_step_stat : forall (s : fsys) (sv : sview) (cs : list str),
   step_hyps s sv -> path_ok s sv SlStat cs ->
@@ -436,3 +436,195 @@ Proof.
   split; [exact StepRemoveAllExamples.ra_instance|].
   split; [exact StepRemoveAllExamples.ra_answer|exact StepRemoveAllExamples.ra_heaps_differ].
 Qed.
+
+(* ---- OpenFile with any flag word ------------------------------------------------------------------------------------------------------ *)
+(* MemFS reads the flag word through [to_open_mode], open(2) through [decode_flags]: both depend only on the access mode
+   (flag land 3, the invalid value 3 included) and the bits O_CREATE, O_EXCL, O_TRUNC, O_APPEND ([om_bits]).  [open_sim]: the
+   same resulting file system; the same errno, or the handle is on the node open(2) returns.  (The offset and the append
+   mode of the handle belong to C02.) *)
+Theorem C01_open_mode_bits : forall flag : N,
+  let om := to_open_mode flag in
+  has om OpenCreateExcl = has flag O_CREATE && has flag O_EXCL
+  /\ has om OpenCreate = has flag O_CREATE
+  /\ has om OpenTruncate = has flag O_TRUNC
+  /\ has om OpenWrite = negb (N.eqb (N.land flag 3) 0).
+Proof. exact om_bits. Qed.
+
+(* without O_CREATE: O_RDONLY, O_WRONLY, O_RDWR, each with or without O_TRUNC and O_APPEND *)
+Theorem C01_step_open_nocreate : forall (s : fsys) (sv : sview) (vi : nat) (cs : list str) (flag perm : N),
+  step_hyps s sv -> path_ok s sv SlEval cs -> has flag O_CREATE = false ->
+  open_sim (open_file s (sv_view sv) vi (abs_path cs) flag perm) (k_open s sv (abs_path cs) flag perm).
+Proof. exact step_open_nocreate. Qed.
+
+(* O_CREATE without O_EXCL (a final link is followed) *)
+Theorem C01_step_open_create : forall (s : fsys) (sv : sview) (vi : nat) (w : list str) (cl : str) (flag perm : N),
+  step_hyps s sv -> path_ok s sv SlLstat (w ++ [cl]) -> path_ok s sv SlEval (w ++ [cl]) ->
+  no_setgid_parent_follow s sv (w ++ [cl]) -> has flag O_CREATE = true -> has flag O_EXCL = false ->
+  open_sim (open_file s (sv_view sv) vi (abs_path (w ++ [cl])) flag perm) (k_open s sv (abs_path (w ++ [cl])) flag perm).
+Proof. exact step_open_create. Qed.
+
+(* O_CREATE with O_EXCL (a final link is not followed: EEXIST, also on a dangling link) *)
+Theorem C01_step_open_excl : forall (s : fsys) (sv : sview) (vi : nat) (w : list str) (cl : str) (flag perm : N),
+  step_hyps s sv -> path_ok s sv SlLstat (w ++ [cl]) -> no_setgid_parent s sv (w ++ [cl]) ->
+  has flag O_CREATE = true -> has flag O_EXCL = true ->
+  let p := abs_path (w ++ [cl]) in
+  open_sim (open_file s (sv_view sv) vi p flag perm) (k_open s sv p flag perm).
+Proof. exact step_open_excl. Qed.
+
+(* the history theorem with OpenFile of any flag word among the covered calls ([covered_o] = [covered_m] or that) *)
+Theorem C01_history_inv_o : forall (vi : nat) (cs : list call) (w : world) (sw : sworld),
+  Inv w -> absw w vi sw -> us_admin (v_user (sv_view (sw_sv sw))) = true -> links_ok (f_heap (w_fs w)) ->
+  call_ok_run_o vi sw cs ->
+  Forall2 obs_sim (snd (impl_run w cs)) (snd (spec_run sw cs))
+  /\ absw (fst (impl_run w cs)) vi (fst (spec_run sw cs))
+  /\ Inv (fst (impl_run w cs)) /\ links_ok (f_heap (w_fs (fst (impl_run w cs)))).
+Proof. exact history_inv_o. Qed.
+
+Example C01_history_inv_o_example :
+  (Forall2 obs_sim (snd (impl_run StepExamples.w_tree StepHistOExamples.ho)) (snd (spec_run StepExamples.sw_tree StepHistOExamples.ho))
+   /\ absw (fst (impl_run StepExamples.w_tree StepHistOExamples.ho)) 0 (fst (spec_run StepExamples.sw_tree StepHistOExamples.ho))
+   /\ Inv (fst (impl_run StepExamples.w_tree StepHistOExamples.ho))
+   /\ links_ok (f_heap (w_fs (fst (impl_run StepExamples.w_tree StepHistOExamples.ho)))))
+  /\ snd (spec_run StepExamples.sw_tree StepHistOExamples.ho)
+     = [SOk; SOk; SErr EISDIR; SOk; SErr EEXIST; SErr EEXIST; SOk; SOk].
+Proof. split; [exact StepHistOExamples.ho_inv|exact StepHistOExamples.ho_results]. Qed.
+
+(* ---- the entry-creating calls on relative paths ----------------------------------------------------------------------------------------- *)
+(* [name_path p cl]: open(2)'s splitting of the string [p] ends in the proper name [cl], no trailing separator: the clean
+   absolute paths "/w/cl" ([name_path_abs]) and the paths that clean to "../"^k w/cl ([C01_rel_name_resolved], which also
+   gives [resolved] - the related walks of C04_resolve_rel - from a working-directory string that is a directory walk to
+   the specification's working-directory node).  The creating calls agree on every resolved name path. *)
+Theorem C01_rel_name_resolved : forall (s : fsys) (sv : sview) (bs : list str) (x : str) (k : nat) (w : list str) (cl : str),
+  step_hyps s sv ->
+  v_cwd (sv_view sv) = abs_path bs -> Forall good_comp bs ->
+  dwalk (f_heap s) (v_user (sv_view sv)) (v_root (sv_view sv)) bs = Some (sv_cwd sv) ->
+  clean Linux x = rel_path k (w ++ [cl]) -> Forall good_comp (w ++ [cl]) ->
+  name_path (clean Linux x) cl
+  /\ forall slm, klookup s sv false (follow_of slm) (clean Linux x) <> WErr EFUEL ->
+                 sr_err (search_node s (sv_view sv) (clean Linux x) slm) <> EFuel ->
+                 resolved s sv slm (clean Linux x).
+Proof. exact rel_name_resolved. Qed.
+
+Theorem C01_step_mkdir_p : forall (s : fsys) (sv : sview) (p cl : str), step_hyps s sv -> name_path p cl -> forall perm : N,
+  resolved s sv SlLstat p -> no_setgid_p s sv false p ->
+  (fst (mkdir s (sv_view sv) p perm), proj_res Linux (snd (mkdir s (sv_view sv) p perm))) = k_mkdir s sv p perm.
+Proof. exact step_mkdir_p. Qed.
+
+Theorem C01_step_symlink_p : forall (s : fsys) (sv : sview) (p cl : str), step_hyps s sv -> name_path p cl -> forall t : str,
+  resolved s sv SlLstat p -> no_setgid_p s sv false p ->
+  (fst (symlink s (sv_view sv) t p), proj_res Linux (snd (symlink s (sv_view sv) t p))) = k_symlink s sv (clean Linux t) p.
+Proof. exact step_symlink_p. Qed.
+
+Theorem C01_step_link_p : forall (s : fsys) (sv : sview) (p cl : str), step_hyps s sv -> name_path p cl -> forall o : str,
+  resolved s sv SlLstat o -> resolved s sv SlLstat p -> not_symlink_p s sv o ->
+  (fst (link s (sv_view sv) o p), proj_res Linux (snd (link s (sv_view sv) o p))) = k_link true s sv o p.
+Proof. exact step_link_p. Qed.
+
+Theorem C01_step_write_file_p : forall (s : fsys) (sv : sview) (p cl : str) (data : list N) (perm : N),
+  step_hyps s sv -> name_path p cl ->
+  resolved s sv SlLstat p -> resolved s sv SlEval p -> no_setgid_p s sv true p ->
+  (fst (write_file s (sv_view sv) p data perm), proj_res Linux (snd (write_file s (sv_view sv) p data perm)))
+  = go_write_file s sv p data perm.
+Proof. exact step_write_file_p. Qed.
+
+Theorem C01_step_open_create_p : forall (s : fsys) (sv : sview) (vi : nat) (p cl : str) (flag perm : N),
+  step_hyps s sv -> name_path p cl ->
+  resolved s sv SlLstat p -> resolved s sv SlEval p -> no_setgid_p s sv true p ->
+  has flag O_CREATE = true -> has flag O_EXCL = false ->
+  open_sim (open_file s (sv_view sv) vi p flag perm) (k_open s sv p flag perm).
+Proof. exact step_open_create_p. Qed.
+
+Theorem C01_step_open_excl_p : forall (s : fsys) (sv : sview) (vi : nat) (p cl : str) (flag perm : N),
+  step_hyps s sv -> name_path p cl ->
+  resolved s sv SlLstat p -> no_setgid_p s sv false p ->
+  has flag O_CREATE = true -> has flag O_EXCL = true ->
+  open_sim (open_file s (sv_view sv) vi p flag perm) (k_open s sv p flag perm).
+Proof. exact step_open_excl_p. Qed.
+
+Theorem C01_step_open_nocreate_p : forall (s : fsys) (sv : sview) (vi : nat) (p : str) (flag perm : N),
+  step_hyps s sv -> p <> [] -> resolved s sv SlEval p -> has flag O_CREATE = false ->
+  open_sim (open_file s (sv_view sv) vi p flag perm) (k_open s sv p flag perm).
+Proof. exact step_open_nocreate_p. Qed.
+
+(* Mkdir "../x" and WriteFile "x" from the working directory "/d/e"; O_CREATE|O_EXCL of the relative link "top" *)
+Example C01_rel_create_examples :
+  ((fst (mkdir WalkSymExamples.tree_fs StepNamePathExamples.acwdv (clean Linux StepNamePathExamples.up_x) 493),
+    proj_res Linux (snd (mkdir WalkSymExamples.tree_fs StepNamePathExamples.acwdv (clean Linux StepNamePathExamples.up_x) 493)))
+   = k_mkdir WalkSymExamples.tree_fs StepNamePathExamples.acwdsv (clean Linux StepNamePathExamples.up_x) 493
+   /\ snd (k_mkdir WalkSymExamples.tree_fs StepNamePathExamples.acwdsv (clean Linux StepNamePathExamples.up_x) 493) = SOk
+   /\ klookup (fst (k_mkdir WalkSymExamples.tree_fs StepNamePathExamples.acwdsv (clean Linux StepNamePathExamples.up_x) 493))
+        (WalkSymExamples.sv_of WalkSymExamples.adminv) false false (abs_path [WalkSymExamples.s_d; WalkSymExamples.s_x])
+      = WNode 1 LNorm WalkSymExamples.s_x (length WalkSymExamples.tree))
+  /\ snd (go_write_file WalkSymExamples.tree_fs StepNamePathExamples.acwdsv (clean Linux WalkSymExamples.s_x) [1%N; 2%N] 420) = SOk
+  /\ snd (k_open WalkSymExamples.tree_fs StepNamePathExamples.acwdsv (clean Linux WalkSymExamples.s_top)
+            (O_CREATE + O_EXCL + O_RDWR) 420) = inl EEXIST.
+Proof.
+  split; [exact StepNamePathExamples.mkdir_rel_instance|].
+  split; [exact (proj2 StepNamePathExamples.write_file_rel_instance)|exact (proj2 StepNamePathExamples.open_excl_rel_instance)].
+Qed.
+
+(* ---- histories with the working directory and relative creating calls, on the states of C05 -------------------------------------------------- *)
+(* [covered_d] = the calls of [covered_c] (absolute-path calls, Stat-like calls on resolved paths, Chdir, Getwd) or Mkdir, Symlink,
+   Link, WriteFile, OpenFile (any flag word) on resolved name paths ([covered_np]) - each with "the working-directory string still
+   denotes the working-directory node after the call" for the mutating ones.  Unlike [C01_history_cwd] the per-state hypotheses
+   ([step_hyps], [Inv_heap], [links_ok]) are DERIVED along the run from [Inv] and [links_ok] of the initial world. *)
+Theorem C01_step_cwd_create : forall (w : world) (vi : nat) (sw : sworld) (d : str) (c : call),
+  absc w vi sw d -> covered_d vi sw d c ->
+  obs_sim (snd (impl_step_proj w c)) (snd (spec_step true sw c))
+  /\ exists d', absc (fst (impl_step_proj w c)) vi (fst (spec_step true sw c)) d'.
+Proof. exact step_world_d. Qed.
+
+Theorem C01_history_inv_cwd : forall (vi : nat) (cs : list call) (w : world) (sw : sworld),
+  Inv w -> absc w vi sw (cwd_of w vi) -> us_admin (v_user (sv_view (sw_sv sw))) = true -> links_ok (f_heap (w_fs w)) ->
+  call_ok_run_d vi w sw cs ->
+  Forall2 obs_sim (snd (impl_run w cs)) (snd (spec_run sw cs))
+  /\ absc (fst (impl_run w cs)) vi (fst (spec_run sw cs)) (cwd_of (fst (impl_run w cs)) vi)
+  /\ Inv (fst (impl_run w cs)) /\ links_ok (f_heap (w_fs (fst (impl_run w cs)))).
+Proof. exact history_inv_d. Qed.
+
+(* Chdir "/d/e"; Mkdir "../x"; WriteFile "../x/f"; Link "f" "../x/g"; OpenFile "../x/g" O_RDWR|O_APPEND;
+   OpenFile "../x/n" O_CREATE|O_EXCL|O_WRONLY; Getwd *)
+Example C01_history_inv_cwd_example :
+  (Forall2 obs_sim (snd (impl_run StepExamples.w_tree StepCwdCreateExamples.hd)) (snd (spec_run StepExamples.sw_tree StepCwdCreateExamples.hd))
+   /\ absc (fst (impl_run StepExamples.w_tree StepCwdCreateExamples.hd)) 0 (fst (spec_run StepExamples.sw_tree StepCwdCreateExamples.hd))
+        (cwd_of (fst (impl_run StepExamples.w_tree StepCwdCreateExamples.hd)) 0)
+   /\ Inv (fst (impl_run StepExamples.w_tree StepCwdCreateExamples.hd))
+   /\ links_ok (f_heap (w_fs (fst (impl_run StepExamples.w_tree StepCwdCreateExamples.hd)))))
+  /\ snd (spec_run StepExamples.sw_tree StepCwdCreateExamples.hd)
+     = [SOk; SOk; SOk; SOk; SOk; SOk; SStr (abs_path [WalkSymExamples.s_d; WalkSymExamples.s_e])].
+Proof. split; [exact StepCwdCreateExamples.hd_inv|exact StepCwdCreateExamples.hd_results]. Qed.
+
+(* ---- RemoveAll inside histories ----------------------------------------------------------------------------------------------------------- *)
+(* The two final heaps of RemoveAll can differ only on links listed (before the call) by a directory of the removed subtree
+   ([top_sim_x]).  When no directory below the target lists a link ([nolink_target]) the final file systems are EQUAL, for
+   every outcome of the walk, and RemoveAll joins the history theorem on the states of C05. *)
+Theorem C01_step_remove_all_exact : forall (s : fsys) (sv : sview) (w : list str) (cl : str),
+  step_hyps s sv -> Inv_heap (f_heap s) -> sym_single (f_heap s) -> path_ok s sv SlLstat (w ++ [cl]) ->
+  nolink_target s sv (abs_path (w ++ [cl])) ->
+  let p := abs_path (w ++ [cl]) in
+  (fst (remove_all s (sv_view sv) p), proj_res Linux (snd (remove_all s (sv_view sv) p))) = go_remove_all s sv p.
+Proof. exact step_remove_all_exact. Qed.
+
+(* os.RemoveAll keeps the hypotheses on links (with or without links in the subtree) *)
+Theorem C01_links_ok_remove_all : forall (s : fsys) (sv : sview) (p : str),
+  us_admin (v_user (sv_view sv)) = true -> Inv_heap (f_heap s) -> links_ok (f_heap s) ->
+  links_ok (f_heap (fst (go_remove_all s sv p))).
+Proof. exact links_ok_go_remove_all. Qed.
+
+Theorem C01_history_inv_r : forall (vi : nat) (cs : list call) (w : world) (sw : sworld),
+  Inv w -> absw w vi sw -> us_admin (v_user (sv_view (sw_sv sw))) = true -> links_ok (f_heap (w_fs w)) ->
+  call_ok_run_r vi sw cs ->
+  Forall2 obs_sim (snd (impl_run w cs)) (snd (spec_run sw cs))
+  /\ absw (fst (impl_run w cs)) vi (fst (spec_run sw cs))
+  /\ Inv (fst (impl_run w cs)) /\ links_ok (f_heap (w_fs (fst (impl_run w cs)))).
+Proof. exact history_inv_r. Qed.
+
+(* MkdirAll "/priv/x/missing"; WriteFile "/priv/x/f"; RemoveAll "/priv"; Lstat "/priv"; Mkdir "/priv"; RemoveAll "/priv" *)
+Example C01_history_inv_r_example :
+  Forall2 obs_sim (snd (impl_run StepExamples.w_tree StepRemoveAllExactExamples.hr))
+                  (snd (spec_run StepExamples.sw_tree StepRemoveAllExactExamples.hr))
+  /\ absw (fst (impl_run StepExamples.w_tree StepRemoveAllExactExamples.hr)) 0
+          (fst (spec_run StepExamples.sw_tree StepRemoveAllExactExamples.hr))
+  /\ Inv (fst (impl_run StepExamples.w_tree StepRemoveAllExactExamples.hr))
+  /\ links_ok (f_heap (w_fs (fst (impl_run StepExamples.w_tree StepRemoveAllExactExamples.hr)))).
+Proof. exact StepRemoveAllExactExamples.hr_inv. Qed.
